@@ -122,6 +122,8 @@ std::string op_print(const Op &o)
                 break;
         case OP_RX_STALL:
                 s << "rx stall " << o.a;
+                if (o.b)
+                        s << " " << o.b; // deliveries before the stall starts
                 break;
         case OP_RX_PAT:
                 s << "rx pat " << o.a << " " << o.b << " " << o.c;
@@ -131,6 +133,8 @@ std::string op_print(const Op &o)
                 break;
         case OP_TX_REFUSE:
                 s << "tx refuse " << o.a << " " << o.b;
+                if (o.c)
+                        s << " " << o.c; // accepted writes before the refusals start
                 break;
         case OP_TX_PAT:
                 s << "tx pat " << o.a << " " << o.b << " " << o.c << " " << o.d;
@@ -372,6 +376,8 @@ bool plan_parse(const std::string &text, Plan &p, std::string &err)
                                 else if (x == "stall") {
                                         o.kind = OP_RX_STALL;
                                         ls >> o.a;
+                                        if (!(ls >> o.b))
+                                                o.b = 0;
                                 } else if (x == "pat") {
                                         o.kind = OP_RX_PAT;
                                         ls >> o.a >> o.b >> o.c;
@@ -384,6 +390,8 @@ bool plan_parse(const std::string &text, Plan &p, std::string &err)
                                 else if (x == "refuse") {
                                         o.kind = OP_TX_REFUSE;
                                         ls >> o.a >> o.b;
+                                        if (!(ls >> o.c))
+                                                o.c = 0;
                                 } else if (x == "pat") {
                                         o.kind = OP_TX_PAT;
                                         ls >> o.a >> o.b >> o.c >> o.d;
